@@ -165,7 +165,7 @@ spec fn running_of(s: JobState) -> JobState {
 /// offered state); finished never becomes unfinished; executed-successfully never becomes
 /// failed / upstream-failed.  It is the reflexive-transitive closure of
 /// pre-offer -> {pre-offer, offered, skipped, upstream-failed, aborted}; offered -> {running, aborted};
-/// running -> {success, failure, aborted}; Output skipped -> upstream-failed;
+/// running -> {success, failure, aborted}; skipped -> upstream-failed (a job skipped early whose input fails after all);
 /// Ephemeral success: NotReadyForCleanup -> {ReadyForCleanup, SkipCleanup}; ReadyForCleanup -> CleanedUp.
 spec fn lc_le(s: JobState, t: JobState) -> bool {
     same_kind(s, t) && (s == t
@@ -174,6 +174,8 @@ spec fn lc_le(s: JobState, t: JobState) -> bool {
         || (is_running(s) && (ran_ok(t) || is_exec_failure(t) || is_aborted(t)))
         || (s == JobState::Output(JobStateOutput::FinishedSkipped)
             && t == JobState::Output(JobStateOutput::FinishedUpstreamFailure))
+        || (s == JobState::Ephemeral(JobStateEphemeral::FinishedSkipped)
+            && t == JobState::Ephemeral(JobStateEphemeral::FinishedUpstreamFailure))
         || (s == JobState::Ephemeral(JobStateEphemeral::FinishedSuccessNotReadyForCleanup)
             && (t == JobState::Ephemeral(JobStateEphemeral::FinishedSuccessReadyForCleanup)
                 || t == JobState::Ephemeral(JobStateEphemeral::FinishedSuccessSkipCleanup)
@@ -193,6 +195,8 @@ spec fn lc_step(s: JobState, t: JobState) -> bool {
             || t == JobState::Ephemeral(JobStateEphemeral::FinishedSuccessNotReadyForCleanup)))
         || (s == JobState::Output(JobStateOutput::FinishedSkipped)
             && t == JobState::Output(JobStateOutput::FinishedUpstreamFailure))
+        || (s == JobState::Ephemeral(JobStateEphemeral::FinishedSkipped)
+            && t == JobState::Ephemeral(JobStateEphemeral::FinishedUpstreamFailure))
         || (s == JobState::Ephemeral(JobStateEphemeral::FinishedSuccessNotReadyForCleanup)
             && (t == JobState::Ephemeral(JobStateEphemeral::FinishedSuccessReadyForCleanup)
                 || t == JobState::Ephemeral(JobStateEphemeral::FinishedSuccessSkipCleanup)))
@@ -254,7 +258,6 @@ spec fn out_wf_one(j: NodeInfo) -> bool {
     &&& (ran_ok(j.state) || j.state == JobState::Output(JobStateOutput::FinishedSkipped) ==> j.history_output is Some)
     &&& (!finished(j.state) || is_exec_failure(j.state) || is_aborted(j.state)
             || j.state == JobState::Always(JobStateAlways::FinishedUpstreamFailure)
-            || j.state == JobState::Ephemeral(JobStateEphemeral::FinishedUpstreamFailure)
         ==> j.history_output is None)
 }
 spec fn out_wf(jobs: Seq<NodeInfo>) -> bool {
